@@ -216,15 +216,36 @@ func PanicCapture(c *core.Ctx, rule string, pkgs []*packages.Package, mustHave m
 	found := map[string]bool{}
 	n := 0
 	for _, fb := range funcBodies(c, pkgs) {
-		info := fb.Pkg.TypesInfo
 		for si, st := range fb.Body.List {
 			ds, ok := st.(*ast.DeferStmt)
 			if !ok {
 				continue
 			}
+			info := fb.Pkg.TypesInfo
 			hl, ok := ast.Unparen(ds.Call.Fun).(*ast.FuncLit)
+			outerInfo := info
+			var helperParams map[types.Object]bool
 			if !ok {
-				continue
+				// `defer helper(&ret)` / `defer failOnPanic(p)`: a declared module function that calls recover() itself
+				callee := calleeOf(info, ds.Call)
+				if callee == nil || callee.Pkg() == nil || !strings.HasPrefix(callee.Pkg().Path(), core.ModPath) {
+					continue
+				}
+				hfd := c.FuncDecl(callee.Origin())
+				hp := c.ByPath[callee.Pkg().Path()]
+				if hfd == nil || hfd.Body == nil || hp == nil {
+					continue
+				}
+				hl = &ast.FuncLit{Type: hfd.Type, Body: hfd.Body}
+				info = hp.TypesInfo
+				helperParams = map[types.Object]bool{}
+				for _, f := range hfd.Type.Params.List {
+					for _, nm := range f.Names {
+						if o := info.Defs[nm]; o != nil {
+							helperParams[o] = true
+						}
+					}
+				}
 			}
 			// recover() inside?
 			var recVar types.Object
@@ -270,7 +291,7 @@ func PanicCapture(c *core.Ctx, rule string, pkgs []*packages.Package, mustHave m
 					if !ok {
 						return false
 					}
-					if o, ok := objOf(info, call.Fun).(*types.Var); ok {
+					if o, ok := objOf(outerInfo, call.Fun).(*types.Var); ok {
 						_, isFn := o.Type().Underlying().(*types.Signature)
 						return isFn
 					}
@@ -316,7 +337,11 @@ func PanicCapture(c *core.Ctx, rule string, pkgs []*packages.Package, mustHave m
 				switch s := x.(type) {
 				case *ast.AssignStmt:
 					for _, l := range s.Lhs {
-						if o, ok := objOf(info, l).(*types.Var); ok && o != recVar && (o.Pos() < hl.Pos() || o.Pos() > hl.End()) {
+						if o, ok := objOf(info, l).(*types.Var); ok && o != recVar && helperParams == nil && (o.Pos() < hl.Pos() || o.Pos() > hl.End()) {
+							return true
+						}
+						// helper form: a store through a pointer parameter (*ret = Failure(…))
+						if st, ok := ast.Unparen(l).(*ast.StarExpr); ok && helperParams != nil && helperParams[objOf(info, st.X)] {
 							return true
 						}
 					}
